@@ -499,3 +499,46 @@ func wideTexts(thorough bool) []string {
 	}
 	return out
 }
+
+// c01StringCompositions: comparisons (case-insensitive and exact) between every pair of string-valued
+// shapes built from tolower / toupper / strcat / iff - the operands a compiler might treat as "already folded".
+func c01StringCompositions(r *run.Runner, getState func(w *run.Worker) *c01State) {
+	shapes := func(x, y string) []string {
+		return []string{x, "tolower(" + x + ")", "toupper(" + x + ")", "strcat(" + x + ", 'A')", "strcat(tolower(" + x + "), 'a')", "tolower(strcat(" + x + ", 'A'))",
+			"iff(na > 1, tolower(" + x + "), " + y + ")", "iff(na > 1, " + y + ", tolower(" + x + "))", "iff(isnull(" + y + "), tolower(" + x + "), " + y + ")",
+			"iff(na > 1, toupper(" + x + "), tolower(" + y + "))", "iif(isnotnull(" + x + "), " + x + ", tolower(" + y + "))", "'a'", "'A'", "(tolower(" + x + "))"}
+	}
+	type item struct{ text string }
+	var items []item
+	for _, l := range shapes("sa", "sb") {
+		for _, rr := range shapes("sb", "sa") {
+			for _, op := range []string{"=~", "!~", "==", "!="} {
+				items = append(items, item{l + " " + op + " " + rr})
+			}
+		}
+		items = append(items, item{"tolower(" + l + ") == 'a'"}, item{l + " in ('a', sb, 'A')"}, item{"strcat(" + l + ", sb) =~ strcat(sb, " + l + ")"})
+	}
+	all := []typedLeaf{{"na", tNum}, {"sa", tStr}, {"sb", tStr}}
+	r.Sweep("string-compositions", int64(len(items)), func(w *run.Worker, idx int64) {
+		text := items[idx].text
+		tree, err := gen.ReadExpr(text)
+		if err != nil {
+			w.HarnessError(fmt.Sprintf("string composition does not read: %v\n%s", err, text))
+			return
+		}
+		var leaves []typedLeaf
+		lex := " " + strings.NewReplacer("(", " ", ")", " ", ",", " ").Replace(text) + " "
+		for _, l := range all {
+			if strings.Contains(lex, " "+l.name+" ") {
+				leaves = append(leaves, l)
+			}
+		}
+		st := getState(w)
+		for pi := range c01Positions {
+			p := &c01Positions[pi]
+			if p.name == "where" || p.name == "extend" {
+				c01Check(w, st, c01Case{src: p.build(gen.ExprText(gen.WrapRoot(tree, gen.Minimal))), pos: p, tree: tree, leaves: leaves})
+			}
+		}
+	})
+}
